@@ -127,6 +127,16 @@ func MethodsString() string {
 	return strings.Join(anyMethods, ",")
 }
 
+// isSupportedMethod reports whether name is exactly one of the supported method names
+func isSupportedMethod(name string) bool {
+	for _, m := range anyMethods {
+		if m == name {
+			return true
+		}
+	}
+	return false
+}
+
 /*************************************************************
  * Router options
  *************************************************************/
